@@ -95,9 +95,12 @@ WithNext ==
              /\ Balanced(LineTexts[t])
              /\ (lines = <<>> => (n = 0 /\ LineTexts[t] # ""))          \* first line defines the block indentation
              /\ (lines # <<>> /\ n > 0 => n <= LastCodeLevel(lines) + 1 \/ LineTexts[t] = "")   \* an indentation level is opened by a code line only
+             \* the block's indentation is that of its first CODE line (comments before it do not count, as in Python)
+             /\ ((IsCode(<<n, LineTexts[t]>>) /\ ~(\E i \in 1..Len(lines) : IsCode(lines[i]))) => n = 0)
              /\ lines' = Append(lines, <<IF LineTexts[t] = "" THEN 0 ELSE n, LineTexts[t]>>)
         /\ UNCHANGED <<done, unit, outer, fol>>
-     \/ /\ lines # <<>> /\ lines[Len(lines)][2] # "" /\ done' = TRUE /\ UNCHANGED <<lines, unit, outer, fol>>
+     \/ /\ lines # <<>> /\ lines[Len(lines)][2] # "" /\ (\E i \in 1..Len(lines) : IsCode(lines[i]))      \* a block holds at least one statement
+        /\ done' = TRUE /\ UNCHANGED <<lines, unit, outer, fol>>
 WithSrc ==
   LET u == Units[unit]
       o == IF outer = 1 THEN "" ELSE u          \* indentation of the with statement itself
